@@ -4,14 +4,15 @@ import json, os, sys
 VERIF = os.path.dirname(os.path.dirname(os.path.abspath(__file__)))
 sys.path.insert(0, VERIF)
 
-CLAIMED = {
-    # pid: (level category, text, note, technique, design_ref)
-    "C11": ("proof",
-            "Lean theorems contains_iff / contains_false_iff / contains_err_iff / isEmpty_iff / contains_mono about the executable model of evaluate, contains_behavior and is_empty (all lists, all behaviours, any certified LP oracle), tied to polyhedra.py by an exact Boolean/error-kind correspondence run on boundary, inside and outside points and on feasible/infeasible/thin systems; failing-input search by exact rational evaluation and certified LP.",
-            "Trusted: Lean kernel + {propext, Classical.choice, Quot.sound}; hand-written model Model/Poly.lean + correspondence harness; Gen/Lists.lean translator; HiGHS treated as an oracle whose agreement with the certified exact answer is measured, not proved.",
-            "Lean 4 theorems on an executable model + differential correspondence with the implementation",
-            "DESIGN.md 5/C11"),
-}
+import importlib, glob
+CLAIMED = {}
+for f in sorted(glob.glob(os.path.join(VERIF, "harness", "props", "c*.py"))):
+    pid = os.path.basename(f)[:-3].upper()
+    mod = importlib.import_module("harness.props." + pid.lower())
+    ck = mod.CHECK
+    if getattr(ck, "claimed", True):
+        CLAIMED[pid] = (ck.level, ck.level_text or ck.title, "Trusted: " + "; ".join(ck.trusted_base) + ". Assumes: " + "; ".join(ck.assumptions),
+                        ck.technique, f"DESIGN.md 5/{pid}")
 PENDING_REASON = "check not built yet in this round (work in progress; see DESIGN.md section 7 build order)"
 
 def main():
